@@ -140,7 +140,7 @@ def run_hist(case):
                 orig[ev[2]] = not ev[1]
             elif k == "npview":
                 src = arrays[ev[1]]
-                arrays[ev[2]] = src[{"all": slice(None), "head": slice(0, 2), "step": slice(None, None, 2)}[ev[3]]] if src.shape == (4,) else src[...]
+                arrays[ev[2]] = src[{"all": slice(None), "head": slice(0, 2), "tail": slice(2, 4), "step": slice(None, None, 2)}[ev[3]]] if src.shape == (4,) else src[...]
                 orig[ev[2]] = orig[ev[1]]
             elif k == "astensor":
                 tensors[tn] = mg.astensor(arrays[ev[1]])
@@ -200,6 +200,12 @@ def run_hist(case):
                     used.add(ev[2])
                     if ev[1] in tsrc:
                         used.add(tsrc[ev[1]])
+            elif k == "out_arr":
+                a_in, a_out = arrays[ev[1]], arrays[ev[2]]
+                if a_in.shape == a_out.shape and a_out.flags.writeable:
+                    tensors[tn] = {"exp": lambda: mg.exp(a_in, out=a_out), "negative": lambda: mg.negative(a_in, out=a_out),
+                                   "add": lambda: mg.add(a_in, a_in, out=a_out)}[ev[3]]()
+                    used.update([ev[1], ev[2]])
             elif k == "failing":
                 mg.add(tensors[ev[1]], np.ones(7))
             elif k == "ctor_fail":
